@@ -116,6 +116,8 @@ def random_free(kind, c, rng, n):
         st = {"a": "add", "id": i, "ts": ts}
         if kind == "session":
             st["g"] = rng.choice(["a", "b", "c"][:c.get("keys", 2)])
+            if c.get("nullkeys"):    # the NULL key (column NULL or absent) and the empty text are two keys like any other
+                st["g"] = rng.choice(["\\N", "\\E", "\\M", "\\E", "\\N", "a"])
             if c.get("twocol"):      # two grouping columns: keys that agree in the first column are different keys
                 st["g"] = rng.choice(["a/R1", "a/R2", "b/R1", "a/R1"])
         if c.get("mtrig") and rng.random() < c["mtrig"]:
